@@ -4,6 +4,8 @@ using namespace sh;
 
 namespace {
 template <typename D> struct Mk { static D* make(unsigned n) { return new D(n); } };
+template <typename D> struct Traits2 { };
+
 template <typename D>
 void run_wrap(const char* name) {
   unsigned n = symrt::param("n", 1); long Bb = symrt::param("Bb", 300);
@@ -13,7 +15,11 @@ void run_wrap(const char* name) {
   for (unsigned j = 0; j < n; ++j) {
     int have = symrt::choose(S("have", j), 3);          // 0: both bounds, 1: only lower, 2: only upper
     if (have != 2) { mpz_class lo = symrt::input(S("lo", j), -Bb, Bb); d->add_constraint(Variable(j) >= lo); std::vector<expr> a(n, ival(0)); a[j] = ival(1); R.add(a, -term(lo), 1); }
-    if (have != 1) { mpz_class hi = symrt::input(S("hi", j), -Bb, Bb); d->add_constraint(Variable(j) <= hi); std::vector<expr> a(n, ival(0)); a[j] = ival(-1); R.add(a, term(hi), 1); }
+    if (have != 1) { // upper bound hi/den with den in {1,2}: rational (non-integer) bounds are arguments too
+      long den = symrt::param("halves", 1) && symrt::flag(S("half", j)) ? 2 : 1;
+      mpz_class hi = symrt::input(S("hi", j), -Bb * den, Bb * den);
+      if (den == 1) d->refine_with_constraint(den * Variable(j) <= hi); else d->refine_with_constraint(den * Variable(j) <= hi);
+      std::vector<expr> a(n, ival(0)); a[j] = ival(-den); R.add(a, term(hi), 1); }
   }
   if (rel && n >= 2) { mpz_class c = symrt::input("relc", -Bb, Bb); d->refine_with_constraint(Variable(0) - Variable(1) <= c); std::vector<expr> a(n, ival(0)); a[0] = ival(-1); a[1] = ival(1); R.add(a, term(c), 1); }
   bool is_signed = symrt::flag("signed");
